@@ -168,6 +168,11 @@ def results_bundle(MX, sd, acs, what):
             out["trim"] = type(e).__name__
     if "ac" in what:
         out["ac"] = sc.aero_center()
+    if "state" in what:
+        # derivatives with respect to body velocity, body rates and body-axis attitude increments are attached to the aircraft;
+        # those with respect to the Earth-fixed position components are not (the Earth axes are not carried along) and are left out
+        sdv = sc.state_derivatives()
+        out["state"] = {n: {k: v for k, v in d.items() if not k.endswith(("dx_f", "dy_f", "dz_f"))} for n, d in sdv.items()}
     return out
 
 
@@ -194,6 +199,8 @@ def rigid_sweep(chk, MX, n):
             what.append("derivs")
         elif r_ < 0.7:
             what.append("ac")
+        elif r_ < 0.85 or (multi and r_ < 0.95):
+            what.append("state")
         P = [rng.uniform(-1e3, 1e3), rng.uniform(-1e3, 1e3), rng.uniform(-1e3, 1e3)]
         Q = api.rand_unit_quat(rng)
         mode = rng.choice(["quat", "quat_scaled", "euler_equiv"])
